@@ -395,12 +395,22 @@ def check_gtf_duplicates(gtf):
         # gffutils cuts the column at "; " and key and value at the FIRST blank: for `gene_id  "G1";` it reads the id ` "G1"`
         # (blank and quotes included) and for `gene_id "G1";  transcript_id "T1";` (or a column that starts with a blank)
         # an attribute with an EMPTY key - the record has no transcript_id / gene_id at all - i.e. another gene /
-        # transcript than this check does; the other attributes are misread the same way (gene_name " "X" in the output
-        # annotations). Every blank outside quotes that follows another blank or starts the column is padding: the
-        # corrected annotation has single blanks
-        padding = set(i for i in range(len(attrs)) if attrs[i] == "")
+        # transcript than this check does. The corrected annotation has single blanks there.
+        # Only the blanks around gene_id / transcript_id are reported: the records IsoQuant writes itself carry two blanks in
+        # front of the first attribute copied from the reference (`exon_id "...";  gene_type "..."`), which costs that one
+        # descriptive attribute when the file is read back but no id
+        padding = set()
+        for value_pos in [gene_id_pos] + ([transcript_id_pos] if feature_type != "gene" else []):
+            j = value_pos - 1
+            while j > 0 and attrs[j] == "":       # between the key and its value
+                padding.add(j)
+                j -= 1
+            j -= 1                                   # attrs[j + 1] is the key
+            while j >= 0 and attrs[j] == "":      # in front of the key
+                padding.add(j)
+                j -= 1
         if padding:
-            logger.warning("Several blanks between attributes, or between an attribute and its value, on line %d" % line_count)
+            logger.warning("Several blanks in front of gene_id / transcript_id, or between one of them and its value, on line %d" % line_count)
             gtf_correct = False
 
         new_attrs = []
